@@ -9,7 +9,7 @@ from ..gen import docs as gdocs
 FOCUS_SETS = [
     None, None, None,
     ['word', 'usermac', 'usermac2', 'usermacopt', 'usermacoptonly', 'defmac', 'defbymac', 'twice_ext', 'verb', 'atom', 'comment', 'footnote'],
-    ['word', 'itemize', 'enumerate', 'itemlab', 'section', 'proof', 'theorem', 'label', 'comment', 'par'],
+    ['word', 'itemize', 'enumerate', 'itemlab', 'section', 'usersec', 'proof', 'theorem', 'label', 'comment', 'par'],
     ['word', 'inline', 'display', 'mathtext', 'ref', 'cite', 'citeopt', 'footnote', 'usermac'],
     ['word', 'verb', 'verbatim', 'comment', 'skip', 'ltskip', 'label', 'vanish', 'unk', 'atom', 'accent'],
     ['word', 'footnote', 'caption', 'footcite', 'textcolor', 'unkarg', 'unkenv', 'figure', 'tabular', 'usermac2'],
